@@ -47,7 +47,8 @@ PROP = dict(
           "repeat format_duration / format_time / format_size / parse_size / usecs_to_timeval+timeval_to_usecs on fixed inputs (7 durations x 4 precisions, 5 timestamps, 12 sizes incl. > 2^34 x both "
           "include_bytes, 11 size texts, 4 timevals) during static destruction / exit processing and compare with the results the same calls gave inside main() (which the subchecks validate); a mismatch or "
           "exception is reported as crash:abort:after-main-<function>."),
-    assumptions=["subsecond_precision in -1..6; durations <= 2^63 us", "timestamps in years 1970..9999 (UTC)",
+    assumptions=["format_size may choose any unit whose two-decimal mantissa says the size to the printed precision (\"1024.00 KB\" or \"1.00 MB\"), and may print \"1 byte\"; a size below 1024 is printed as a plain byte count or, from 512 up, with a KB mantissa",
+                 "subsecond_precision in -1..6; durations <= 2^63 us", "timestamps in years 1970..9999 (UTC)",
                  "the TZ environment variable is changed only by the harness itself, on the single thread that runs cases (setenv + tzset before the call, restored after it; a time_seq case sets it before its thread starts and restores it after the join); the Python stage runs under the environment as found",
                  "sizes that print as '16.00 EB' (= 2^64, not representable in size_t) are checked for a faithful text only and counted as excluded from the parse_size round trip",
                  "format_size's mantissa is computed in float: tolerance 0.005 unit + 2^-23 size (+1 byte for parse_size), as DESIGN C18 states",
